@@ -218,9 +218,9 @@ def run_task(args):
         known = load_known(prop_id)
         _run_sub(mod, sub, tier, seed, shard, shrink_budget, known, out)
     except HarnessError as e:
-        out["harness_error"] = str(e)
+        out["harness_error"] = _short(str(e))
     except Exception as e:  # anything else escaping is a harness error
-        out["harness_error"] = "".join(traceback.format_exception(type(e), e, e.__traceback__))[-4000:]
+        out["harness_error"] = _short("".join(traceback.format_exception(type(e), e, e.__traceback__)))
     out["wall"] = time.time() - t0
     out["nontrivial_hashes"] = sorted(out["nontrivial_hashes"])
     out["failures"] = [f.to_json() for f in out["failures"]]
@@ -328,6 +328,11 @@ def _run_sub(mod, sub, tier, seed, shard, shrink_budget, known, out):
             return
         out["failures"].append(state["best"])
         suppressed.add(state["best"].bucket)
+
+
+def _short(text, n=1800):
+    text = str(text)
+    return text if len(text) <= n else text[:n // 2] + "\n   [...]\n" + text[-n // 2:]
 
 
 class _Found(Exception):
